@@ -751,6 +751,11 @@ def check(ctx, rep):
     # R01.i: a task parked on a JoinHandle is woken whenever the joined task leaves the command, or everything it would still request is lost
     rep.rule('R01.i', 'every task that leaves a command — finished, aborted or evicted — publishes `finished` and wakes its join handles', floor=2)
     c07.check_finish_notify(rep, 'R01.i', core)
+    # R01.k: the effects of one member of a composition are not lost because an unrelated member was aborted: a combinator returns a
+    # fresh command, never one of its operands (shared with C06 R06.g; seeded: Command::all as reduce(Command::and)). The deliberate
+    # left-operand hosting of `and` is finding C06-F2 of its own property and is not reported a second time here (exact key).
+    from rules.props import c06 as _c06, c10 as _c10
+    _c06.check_fresh_host(_c10.RuleProxy(rep, 'R01.k', lambda key: key != 'Command::and|returns-operand'), core, rid='R01.k')
     # R01.h: outputs already produced are not thrown away when a hosted command ends (shared with C07 R07.a / R07.e)
     rep.rule('R01.h', 'a command reports done / ends its stream only when its effect and event queues are empty', floor=3)
     c07.check_is_done(rep, 'R01.h', core)
